@@ -147,12 +147,12 @@ def generate(tier, seed):
     # 3. invalid inputs (one fault each)
     s = 8
     h = 180 * s
-    for i in range(60 if tier == "quick" else 400):
+    for i in range(96 if tier == "quick" else 600):
         w = rnd.randint(-h, h)
         e = w + rnd.randint(0, h)
         reg = [w, e, -10 * s, 10 * s]
         lons, lats = [w, e, 0], [0, s, -s]
-        f = i % 8
+        f = i % 12
         if f == 0:
             reg[0] = -h - rnd.randint(1, 50)
         elif f == 1:
@@ -161,6 +161,16 @@ def generate(tier, seed):
             reg[2] = -90 * s - 1
         elif f == 3:
             reg[3] = 90 * s + 1
+        elif f == 8:      # the "wrong" bound out of range: west above 360 (east within 360 of it)
+            reg[0] = 2 * h + rnd.randint(1, 50)
+            reg[1] = reg[0] - rnd.randint(0, h)
+        elif f == 9:      # east below -180
+            reg[1] = -h - rnd.randint(1, 50)
+            reg[0] = reg[1] + rnd.randint(0, h)
+        elif f == 10:     # south above 90
+            reg[2] = 90 * s + rnd.randint(1, 9)
+        elif f == 11:     # north below -90
+            reg[3] = -90 * s - rnd.randint(1, 9)
         elif f == 4:
             reg[0], reg[1] = -h, 2 * h
         elif f == 5:
